@@ -361,6 +361,10 @@ def finish_c03(ctx, facts):
     # ---- C03.6 the framing decision sees every header the client sent
     import rules_C02
     rules_C02.header_loop_rules(ctx, "C03.6")
+    # ---- C03.10 ... and sees each value without the optional whitespace around it (`Content-Length: 5 ` declares 5 bytes; with the
+    # whitespace left on, the strict number test refuses the message): the header-value rule of C02.9, taken over
+    import parser_rules as PRS_
+    rules_C02.value_trim_rule(ctx, "C03.10", PRS_.pmodel(facts))
     # ---- C03.4 the fused reader itself
     f = FRM.fmodel(facts).nr0
     n = 0
